@@ -225,7 +225,7 @@ def part_b(ctx):
             if ctx.mine(i):
                 ctx.count("catalogue_graphs_explored")
                 yield spec
-        yield from graph_specs(rng, ctx.n(300, 12000), ctx.tier == "thorough")
+        yield from graph_specs(rng, ctx.n(300, 8000), ctx.tier == "thorough")
     for spec in all_specs():
         ctx.count("synthetic_graphs_explored")
         case = {"kind": "graph", "spec": spec}
@@ -275,7 +275,7 @@ def run_shard(ctx):
     from ..mon import loop
     loop.selftest()
     base = ctx.seed * 17_000_023 + ctx.shard * 1_000_133
-    for k in range(ctx.n(1000, 25000)):
+    for k in range(ctx.n(1000, 15000)):
         c04.check_request(ctx, base + k, k, protocol=True, merge=False)
     part_b(ctx)
 
